@@ -85,6 +85,32 @@ KINDS = {
 }
 
 
+# directive PDU decoders (family 13) come from the registries of the part modules
+def _directive_kinds():
+    out = []
+    mods = _PARTS.get(13, [])
+    tag = 10
+    for m in mods:
+        for d in getattr(m, "DECODERS", []):
+            if "FileDirectivePduBase" in d["name"]:
+                continue    # the base class does not verify a checksum
+            out.append((tag, d))
+            KINDS[tag] = (d["op"], (1, 2, 3), (0, 1), d["name"])
+            tag += 1
+    return out
+
+
+def _crc_units(rng, d, n):
+    out = []
+    for _ in range(60):
+        for u in d["valid"](rng):
+            if u[0] & 2 and len(u) <= 80:
+                out.append(list(u))
+        if len(out) >= n:
+            break
+    return out[:n]
+
+
 def bursts(rng, nbits, lengths, exhaustive_small=False):
     """error patterns as (start_bit, list of set bit offsets) in MSB-first bit numbering"""
     for start in range(nbits):
@@ -158,10 +184,19 @@ def streams(tier, rng):
     for pkt in _fd_units(rng, nfd):
         cases += list(corrupted_cases(rng, pkt, 3, [], lengths, big))
     yield "file_data_bursts", "exact", cases
+    dk = _directive_kinds()
+    for tag, d in dk:
+        cases = []
+        for pkt in _crc_units(rng, d, 20 if big else 5):
+            cases += list(corrupted_cases(rng, pkt, tag, list(d["extra"]), lengths, False))
+        yield "bursts_" + d["name"], "exact", cases
     # 3. the CRC flag bit itself (known finding: protocol-inherent)
     cases = []
     for pkt in _fd_units(rng, 40):
         cases.append((1402, [apply_bits(pkt, [6]), list(pkt), [3]]))
+    for tag, d in dk:
+        for pkt in _crc_units(rng, d, 20):
+            cases.append((d["op"], [apply_bits(pkt, [6])] + list(d["extra"]) + [list(pkt), [tag]]))
     yield "crc_flag_flips", "exact", cases
     # 4. uncorrupted packets pass
     cases = []
@@ -171,6 +206,9 @@ def streams(tier, rng):
         cases.append((506, [pkt, pkt, [0]])); cases.append((602, [pkt, [tl], pkt, [0]]))
     for pkt in _fd_units(rng, 100):
         cases.append((1402, [pkt, pkt, [0]]))
+    for tag, d in dk:
+        for pkt in _crc_units(rng, d, 30):
+            cases.append((d["op"], [pkt] + list(d["extra"]) + [pkt, [0]]))
     yield "uncorrupted", "exact", cases
 
 
@@ -197,7 +235,8 @@ def oracle(case, ires, sres):
             if ires[1] != [1]:
                 return ("C04/check_pus_crc/valid-refused", "uncorrupted packet fails the check: %s" % (orig[:16],))
         elif err:
-            return ("C04/%s/valid-refused" % KINDS[{502: 1, 602: 2, 1402: 3}[op]][3], "uncorrupted packet refused: %s -> %s" % (orig[:16], ires))
+            nm = next((v[3] for v in KINDS.values() if v[0] == op), "op%d" % op)
+            return ("C04/%s/valid-refused" % nm, "uncorrupted packet refused: %s -> %s" % (orig[:16], ires))
         return None
     _, prot, flag, name = KINDS[tag]
     diff = [i for i in range(len(orig)) if orig[i] != corrupted[i]]
